@@ -19,7 +19,7 @@ func aggValue(r *Rng, nanOK bool) any {
 	case 3, 4:
 		return float64(r.Range(-12, 12)) / 4
 	case 5:
-		return Pick(r, []string{"3", "-1.5", "2e1", "0.25", "7"})
+		return Pick(r, []string{"3", "-1.5", "2e1", "0.25", "7", ".5", "+2", "-.25", "1_0"})
 	case 6:
 		if nanOK {
 			return Pick(r, []float64{math.NaN(), math.NaN(), math.Inf(1), math.Inf(-1)})
@@ -44,11 +44,22 @@ func genAgg(r *Rng, tier string) *Enc {
 		for i := range d {
 			d[i] = aggValue(r, nan)
 		}
+		huge := r.Chance(8)
+		if huge {
+			// magnitudes near the int64 limit: partial sums are multiples of 2^20 below 2^67, exact in float64
+			for i := range d {
+				d[i] = Pick(r, []any{int64(4e18), int64(4e18), int64(-4e18), int(4e18), int64(1) << 62, int64(0)})
+			}
+		}
 		if n > 0 && r.Chance(25) {
 			// one non-numeric cell (per AsFloat64's table) at a chosen position
-			d[Pick(r, []int{0, n / 2, n - 1})] = Pick(r, []any{"abc", nil, true, int8(3), uint(2), ""})
+			odd := []any{"abc", nil, true, int8(3), uint(2), ""}
+			if huge {
+				odd = []any{"abc", nil, true, ""} // no small numbers next to 4e18: float64 sums must stay exact
+			}
+			d[Pick(r, []int{0, n / 2, n - 1})] = Pick(r, odd)
 		}
-		if nan && n > 0 && r.Chance(50) {
+		if nan && !huge && n > 0 && r.Chance(50) {
 			d[Pick(r, []int{0, n / 2, n - 1})] = math.NaN()
 		}
 		df.Columns[name] = &dataframe.Column[any]{Name: name, Data: d}
